@@ -273,7 +273,7 @@ func (p *ReceiverEstimatedMaximumBitrate) String() string {
 	powers := 0
 
 	// Keep dividing the bitrate until it's under 1000
-	for bitrate >= 1000.0 && powers < len(bitUnits) {
+	for bitrate >= 1000.0 && powers < len(bitUnits)-1 {
 		bitrate /= 1000.0
 		powers++
 	}
